@@ -1,11 +1,11 @@
 package hx
 
 import (
-	"strings"
 	"fmt"
 	"math"
 	"sort"
 	"strconv"
+	"strings"
 	"time"
 
 	"github.com/uhn/ggql/pkg/ggql"
@@ -27,16 +27,17 @@ type KV struct {
 }
 
 // Convenience constructors.
-func Nil() Val             { return Val{K: "nil"} }
-func Bool(b bool) Val      { return Val{K: "bool", S: strconv.FormatBool(b)} }
-func Str(s string) Val     { return Val{K: "string", S: s} }
-func Sym(s string) Val     { return Val{K: "symbol", S: s} }
-func VarV(s string) Val    { return Val{K: "var", S: s} }
-func I64(i int64) Val      { return Val{K: "int64", S: strconv.FormatInt(i, 10)} }
-func I32(i int32) Val      { return Val{K: "int32", S: strconv.FormatInt(int64(i), 10)} }
-func Int(i int) Val        { return Val{K: "int", S: strconv.FormatInt(int64(i), 10)} }
-func F64(f float64) Val    { return Val{K: "float64", S: strconv.FormatFloat(f, 'g', -1, 64)} }
-func F32(f float32) Val    { return Val{K: "float32", S: strconv.FormatFloat(float64(f), 'g', -1, 32)} }
+func Nil() Val          { return Val{K: "nil"} }
+func Bool(b bool) Val   { return Val{K: "bool", S: strconv.FormatBool(b)} }
+func Str(s string) Val  { return Val{K: "string", S: s} }
+func Sym(s string) Val  { return Val{K: "symbol", S: s} }
+func VarV(s string) Val { return Val{K: "var", S: s} }
+func I64(i int64) Val   { return Val{K: "int64", S: strconv.FormatInt(i, 10)} }
+func I32(i int32) Val   { return Val{K: "int32", S: strconv.FormatInt(int64(i), 10)} }
+func Int(i int) Val     { return Val{K: "int", S: strconv.FormatInt(int64(i), 10)} }
+func F64(f float64) Val { return Val{K: "float64", S: strconv.FormatFloat(f, 'g', -1, 64)} }
+func F32(f float32) Val { return Val{K: "float32", S: strconv.FormatFloat(float64(f), 'g', -1, 32)} }
+
 // Time: a year RFC 3339 can not write (beyond 9999, before 0) is kept as "unix:<seconds>:<nanoseconds>".
 func Time(t time.Time) Val {
 	if y := t.UTC().Year(); y < 0 || y > 9999 {
@@ -44,7 +45,7 @@ func Time(t time.Time) Val {
 	}
 	return Val{K: "time", S: t.Format(time.RFC3339Nano)}
 }
-func Ref(id int) Val       { return Val{K: "ref", S: strconv.Itoa(id)} }
+func Ref(id int) Val { return Val{K: "ref", S: strconv.Itoa(id)} }
 func List(vs ...Val) Val {
 	if vs == nil {
 		vs = []Val{}
